@@ -180,6 +180,9 @@ def subscribe(obs, snap):
     return snap
 
 
+PRELUDE_RULE = ('. Every 4th case has a HISTORY: before the judged subscription the same observable lives through 1-3 aborted ones '
+                '(disposed after k items / source error after k items / a consumer raising at item j / a take(j) peek) on a pushed source; '
+                'pipelines with a tee_map only get the kinds without a terminal event')
 PRELUDE_TAGS = ['after-aborted-subscriptions', 'prelude:dispose', 'prelude:source_error', 'prelude:consumer_raise', 'prelude:peek']
 
 
